@@ -29,6 +29,17 @@ extraction (L9), the word fast path (L10), query → match-tree translation (L11
 -/
 import ZoektModel.C01.Lemmas
 import ZoektModel.C01.IterLemmas
+import ZoektModel.C01.IterSpec
+import ZoektModel.C01.DocIterLemmas
+import ZoektModel.C01.SubstrLemmas
+import ZoektModel.C01.LineLemmas
+import ZoektModel.C01.BTreeLemmas
+import ZoektModel.C01.FullLemmas
+import ZoektModel.C01.WordLemmas
+import ZoektModel.C01.SelectLemmas
+import ZoektModel.C01.CaseLemmas
+import ZoektModel.C01.RegexBridge
+import ZoektModel.C01.RegexEq
 namespace ZoektModel.C01
 
 /-- **one `evalMatchTree` call** on a consistent tree: the tree stays consistent, its plain value is unchanged, a decided
@@ -118,11 +129,558 @@ theorem dist_next_complete (x : Dist) (hw : x.WF) (limit : Nat) (hl : limit ≠ 
   | dist y => rw [h] at r; exact r.2
   | basic b => rw [h] at r; exact r
 
+/-- **hit iterator specification** (L2/L3, soundness + completeness + order): after any sequence of `next(limit)` calls,
+    `first()` is the MINIMUM of what the iterator held at the start that lies beyond every limit — the postings of a
+    (merged) trigram iterator, the aligned pairs `p ∈ P1, p + dist ∈ P2` of a distance iterator — or the sentinel if
+    nothing is left. The `findNext` fuel of the model provably suffices. -/
+theorem hit_iter_spec (h : Hit) (hw : h.WF) (limits : List Nat) (hl : ∀ l, l ∈ limits → l ≠ maxU32) :
+    ((h.runNext limits).first.1 = maxU32 ∧ ∀ q, h.has q → ∃ l, l ∈ limits ∧ q ≤ l) ∨
+    (h.has (h.runNext limits).first.1 ∧ (∀ l, l ∈ limits → l < (h.runNext limits).first.1) ∧
+      ∀ q, h.has q → (∀ l, l ∈ limits → l < q) → (h.runNext limits).first.1 ≤ q) := by
+  obtain ⟨w, i⟩ := Hit.runNext_spec limits h hw hl
+  obtain ⟨_, _, _, f⟩ := (h.runNext limits).first_spec w
+  rcases f with ⟨a, b⟩ | ⟨a, b⟩
+  · left
+    refine ⟨a, fun q hq => ?_⟩
+    apply Classical.byContradiction
+    intro hn
+    exact b q ((i q).mpr ⟨hq, fun l hl' => by
+      apply Classical.byContradiction; intro hlt; exact hn ⟨l, hl', by omega⟩⟩)
+  · right
+    have := (i _).mp a
+    exact ⟨this.1, this.2, fun q hq hql => b q ((i q).mpr ⟨hq, hql⟩)⟩
+
+/-- **`dist_iter_spec`**: for the distance iterator over sorted posting lists `P1`, `P2`: after any sequence of
+    `next(limit)`, `first()` = min { p ∈ P1 | p > every limit ∧ p + dist ∈ P2 } (sentinel if there is none) -/
+theorem dist_iter_spec (x : Dist) (hw : x.WF) (hfresh : x.started = false) (limits : List Nat)
+    (hl : ∀ l, l ∈ limits → l ≠ maxU32) :
+    (((Hit.dist x).runNext limits).first.1 = maxU32 ∧ ∀ q, x.Aligned q → ∃ l, l ∈ limits ∧ q ≤ l) ∨
+    (x.Aligned ((Hit.dist x).runNext limits).first.1 ∧
+      (∀ l, l ∈ limits → l < ((Hit.dist x).runNext limits).first.1) ∧
+      ∀ q, x.Aligned q → (∀ l, l ∈ limits → l < q) → ((Hit.dist x).runNext limits).first.1 ≤ q) :=
+  hit_iter_spec (.dist x) ⟨hw, fun h => by rw [hfresh] at h; exact absurd h (by simp)⟩ limits hl
+
 /-! non-vacuity of the iterator theorems: trigram "abc" at 3, 10, 20 (two case variants), "def" at 6, 13, 30 -/
 def exDist : Dist := ⟨[[3, 20], [10]], [[6, 13, 30]], 3, false⟩
 example : exDist.Aligned 10 := ⟨⟨[10], by simp [exDist], by simp⟩, ⟨[6, 13, 30], by simp [exDist], by simp [exDist]⟩⟩
 example : (Dist.findNext exDist.fuel exDist).i1.first = 3 ∧
     (match Hit.next (.dist exDist) 3 with | .dist y => y.i1.first | .basic _ => 0) = 10 := by decide
+example : exDist.WF ∧ exDist.started = false := by
+  refine ⟨⟨?_, ?_, ?_, ?_⟩, rfl⟩
+  · intro l hl; simp [exDist] at hl; rcases hl with h | h <;> subst h <;> simp [SortedL]
+  · intro l hl; simp [exDist] at hl; subst hl; simp [SortedL]
+  · intro p ⟨l, hl, hp⟩; simp [exDist] at hl; rcases hl with h | h <;> subst h <;> simp at hp <;> simp [maxU32] <;> omega
+  · intro p ⟨l, hl, hp⟩; simp [exDist] at hl; subst hl; simp at hp; simp [maxU32]; omega
+example : ((Hit.dist exDist).runNext [3, 5]).first.1 = 10 ∧ ((Hit.dist exDist).runNext [3, 10]).first.1 = maxU32 := by decide
+
+/-- **`post_complete`** (L1): an occurrence of the pattern at offset `o` of document `d` puts `base(d) + o + k` into the
+    posting list of the pattern's `k`-th trigram (posting lists = all within-document occurrences of the trigram) -/
+theorem post_complete_thm (texts : List (List Nat)) (pat : List Nat) (d o k : Nat) (hd : d < texts.length)
+    (hocc : occAt pat texts d o) (hk : k + 3 ≤ pat.length) :
+    baseOf texts d + o + k ∈ post (tri pat k) texts :=
+  post_complete texts pat d o k hd hocc hk
+
+/-- **`nextFileIndex`** (galloping search) returns the smallest `j ≥ f` with `ends[j] > offset` -/
+theorem nextFileIndex_exact (offset f : Nat) (ends : List Nat) (hm : Mono ends) :
+    f ≤ nextFileIndex offset f ends ∧
+    (∀ j, f ≤ j → j < nextFileIndex offset f ends → ends.getD j 0 ≤ offset) ∧
+    (nextFileIndex offset f ends < ends.length → offset < ends.getD (nextFileIndex offset f ends) 0) :=
+  nextFileIndex_spec offset f ends hm
+
+/-- **`docIter_candidates_complete`** (L4): for EVERY choice `i ≤ j` of the two trigram positions (so the frequency
+    heuristic of `findSelectiveNgrams` cannot affect results), driving the `ngramDocIterator` built over the true
+    posting lists as `Search` does — strictly increasing documents; `nextDoc`, `prepare`, `candidates` for each —
+    every rune offset at which the pattern occurs in a visited document is among that document's candidates -/
+theorem docIter_candidates_complete (texts : List (List Nat)) (pat : List Nat) (i j : Nat) (hij : i ≤ j)
+    (hj : j + 3 ≤ pat.length) (hsz : totalLen texts + pat.length < maxU32)
+    (docs : List Nat) (hsorted : docs.Pairwise (· < ·)) (hrange : ∀ d, d ∈ docs → d < texts.length)
+    (d : Nat) (cs : List Nat) (hmem : (d, cs) ∈ (mkIter texts pat i j).drive docs) (o : Nat)
+    (hocc : occAt pat texts d o) : o ∈ cs :=
+  DocIter.drive_complete texts pat i (by omega) hsz docs 0 _ (mkIter_inv texts pat i j hij hj hsz) hsorted
+    (fun x hx => ⟨Nat.zero_le _, hrange x hx⟩) d cs hmem o hocc
+
+/-- **`docIter_nextDoc_sound`** (L4): `nextDoc` of the document iterator never exceeds the next document that contains
+    an occurrence of the pattern (in any state reached along a search) -/
+theorem docIter_nextDoc_sound (texts : List (List Nat)) (pat : List Nat) (i L : Nat) (it : DocIter)
+    (hi : i + 3 ≤ pat.length) (h : it.Inv texts pat i L) (d : Nat) (hL : L ≤ d) (hd : d < it.nextDoc.1)
+    (hdn : d < texts.length) (o : Nat) : ¬ occAt pat texts d o :=
+  (it.nextDoc_inv texts pat i L hi h).2 d hL hd hdn o
+
+/-! non-vacuity: three documents "xabcd", "", "abcabcd"; pattern "abcd" occurs in documents 0 (offset 1) and 2 (offset 3);
+    trigram choices (0,0), (0,1), (1,1) all give those candidates -/
+def exTexts : List (List Nat) := [[120, 97, 98, 99, 100], [], [97, 98, 99, 97, 98, 99, 100]]
+def exPat : List Nat := [97, 98, 99, 100]
+example : occAt exPat exTexts 0 1 ∧ occAt exPat exTexts 2 3 := by unfold occAt; decide
+example : post (tri exPat 0) exTexts = [1, 5, 8] ∧ post (tri exPat 1) exTexts = [2, 9] := by decide
+example : ((mkIter exTexts exPat 0 1).prepare 0).candidates.1 = [1] ∧
+    ((((mkIter exTexts exPat 0 1).prepare 0).candidates.2).prepare 2).candidates.1 = [3] ∧
+    ((((mkIter exTexts exPat 0 0).prepare 0).candidates.2).prepare 2).candidates.1 = [0, 3] ∧
+    ((mkIter exTexts exPat 1 1).prepare 2).candidates.1 = [3] := by decide
+example : (mkIter exTexts exPat 0 1).Inv exTexts exPat 0 0 :=
+  mkIter_inv exTexts exPat 0 1 (by decide) (by decide) (by decide)
+
+/-- **`substr_nextDoc_sound`**: the hypothesis of `nextDoc_sound` about substring leaves, discharged for real iterators:
+    a case-sensitive substring leaf over the true posting lists (any trigram choice, any state along a search) never
+    lets `nextDoc` skip a document in which its pattern occurs -/
+theorem substr_nextDoc_sound (ctx : Ctx) (hw : ctx.WF) (L : Nat) (s : Sub) (h : SubOk ctx L s) :
+    SubSound (subSemX ctx) L s :=
+  subOk_sound ctx hw L s h
+
+/-- **`substr_prepare_exact`**: after `prepare(d)` the plain value of a substring leaf (some candidate passes
+    `matchContent`) is exactly "the pattern occurs in document `d`" -/
+theorem substr_prepare_exact (ctx : Ctx) (hw : ctx.WF) (L : Nat) (s : Sub) (h : SubOk ctx L s) (nd : Nat) (hL : L ≤ nd)
+    (hnd : nd < ctx.live.length) :
+    (s.prepare nd).val ctx nd = occurs s.caseSens s.pat (ctx.text s.fileName nd) := by
+  rw [(Sub.prepare_ok ctx hw L s h nd hL hnd).2.1, subSemX_eq_occurs ctx L s h nd]
+
+/-- **`C01_search_exact_substring`**: for every shard (names, contents, liveness) and every match tree whose leaves are
+    substring atoms backed by the true posting lists — case-sensitive (`mkSub_ok`: ANY selected trigram positions
+    `i ≤ j`) or case-insensitive (`substr_ci_leaf_ok`: merged posting lists of case variants that contain every trigram
+    lower-casing to the pattern's) or the `noMatchTree` iterator when the pattern occurs nowhere —, document predicates (branch, repository, language,
+    metadata, set filters), const and engine-decided atoms, combined by and / or / not / type / boost:
+    `Search` (prune + document loop + nextDoc + staged evaluation + iterators + verification) returns exactly the
+    live documents on which the SCAN meaning `MT.ref` (Spec.lean: substring atoms by scanning every offset of the text)
+    is true, and never reaches the `did not decide` panic; a tree pruned to `nil` is false on every document. -/
+theorem C01_search_exact_substring (ctx : Ctx) (hw : ctx.WF) (t0 : MT) (h0 : t0.OkS ctx 0) :
+    match search ctx t0 with
+    | Option.none => ∀ d, t0.ref ctx d = false
+    | some o => o.res = expected ctx t0 ∧ o.panicked = false := by
+  have hp := MT.prune_spec (subSemX ctx) (fun _ _ => true)
+    (fun s hs d => by simp [subSemX, hs]) (fun _ _ _ _ => rfl) t0
+  unfold search
+  cases hpr : t0.prune with
+  | none =>
+    rw [hpr] at hp
+    intro d
+    rw [MT.ref_eq_semS ctx 0 d t0 h0]; exact hp d
+  | some t =>
+    rw [hpr] at hp
+    simp only []
+    have hok := MT.prune_okS ctx 0 t0 h0 t hpr
+    have := search_loop_exact ctx (fun d => semS ctx d t) _ (loopHyp_substr ctx hw t) t ⟨hok, fun _ => rfl⟩
+    refine ⟨?_, this.2⟩
+    rw [this.1]
+    unfold expected
+    congr 1
+    funext d
+    rw [MT.ref_eq_semS ctx 0 d t0 h0, show semS ctx d t = semS ctx d t0 from hp d]
+
+/-- **case-insensitive substring leaves under the FoldAgree hypothesis**: if the variant lists of the two selected
+    trigrams contain every rune triple that lower-cases to the (lowered) pattern's trigram — which is what
+    `generateCaseNgrams` yields on runes whose lower-casing and simple case folding agree — then the leaf built over the
+    merged variant posting lists satisfies the leaf invariant `SubOk`, so `C01_search_exact_substring`,
+    `substr_nextDoc_sound` and `substr_prepare_exact` apply to it: its candidates, after `caseFoldingEqualsRunes`,
+    are exactly the case-insensitive occurrences -/
+theorem substr_ci_leaf_ok (ctx : Ctx) (fileName : Bool) (patL : List Nat) (i j : Nat) (vars1 vars2 : List (List Nat))
+    (hij : i ≤ j) (hj : j + 3 ≤ patL.length) (hsz : totalLen (ctx.texts fileName) + patL.length < maxU32)
+    (hv1 : ∀ g', g'.map toLowerRune = tri patL i → g' ∈ vars1)
+    (hv2 : ∀ g', g'.map toLowerRune = tri patL j → g' ∈ vars2) :
+    SubOk ctx 0 (mkSubCI ctx fileName patL i j vars1 vars2) :=
+  mkSubCI_ok ctx fileName patL i j vars1 vars2 hij hj hsz hv1 hv2
+
+/-- the case-sensitive counterpart: a leaf over the true posting lists of ANY two trigram positions `i ≤ j` -/
+theorem substr_cs_leaf_ok (ctx : Ctx) (fileName : Bool) (pat : List Nat) (i j : Nat) (hij : i ≤ j)
+    (hj : j + 3 ≤ pat.length) (hsz : totalLen (ctx.texts fileName) + pat.length < maxU32) :
+    SubOk ctx 0 (mkSub ctx fileName pat i j) :=
+  mkSub_ok ctx fileName pat i j hij hj hsz
+
+/-! non-vacuity (case-insensitive): contents "xAbC", pattern "abc" lowered; the variant list of "abc" is all 8 case variants;
+    the leaf's merged iterator holds the posting 1, and the case-insensitive scan finds the pattern -/
+def exCtxCI : Ctx := ⟨[[110]], [[120, 65, 98, 67]], [true]⟩
+def exVars : List (List Nat) :=
+  [[97, 98, 99], [65, 98, 99], [97, 66, 99], [65, 66, 99], [97, 98, 67], [65, 98, 67], [97, 66, 67], [65, 66, 67]]
+example : variantPostings exVars (exCtxCI.texts false) = [[], [], [], [], [], [1], [], []] := by decide
+example : occurs false [97, 98, 99] (exCtxCI.text false 0) = true := by decide
+example : ∀ g', g'.map toLowerRune = tri [97, 98, 99] 0 → g' ∈ exVars := by
+  intro g' h
+  have hl : g'.length = 3 := by have := congrArg List.length h; simpa [tri] using this
+  match g', hl with
+  | [a, b, c], _ =>
+    simp only [List.map_cons, List.map_nil, tri, List.drop_zero, List.take_succ_cons, List.take_zero,
+      List.cons.injEq, and_true] at h
+    obtain ⟨ha, hb, hc⟩ := h
+    have lowerInv : ∀ x y : Nat, toLowerRune x = y → y < 128 → 97 ≤ y → y ≤ 122 → (x = y ∨ x = y - 32 ∨ (y = 107 ∧ x = 8490)) := by
+      intro x y hxy _ _ _
+      unfold toLowerRune at hxy
+      split at hxy
+      · right; left; omega
+      · split at hxy
+        · omega
+        · split at hxy
+          · omega
+          · split at hxy
+            · omega
+            · split at hxy
+              · right; right; omega
+              · left; omega
+    rcases lowerInv a 97 ha (by omega) (by omega) (by omega) with h1 | h1 | h1 <;>
+    rcases lowerInv b 98 hb (by omega) (by omega) (by omega) with h2 | h2 | h2 <;>
+    rcases lowerInv c 99 hc (by omega) (by omega) (by omega) with h3 | h3 | h3 <;>
+    first
+      | omega
+      | (subst h1; subst h2; subst h3; simp [exVars])
+
+/-! non-vacuity: contents "xabcd", "", "abcabcd"; tree and[substr "abcd" (trigrams 0 and 1), not(name-substr "zzz" whose
+    trigram is absent), or[doc-predicate, substr "bca" (single trigram)]] -/
+def exCtxS : Ctx := ⟨[[110], [111], [112]], exTexts, [true, true, true]⟩
+def exTreeS : MT :=
+  .and Option.none (.cons (.sub (mkSub exCtxS false exPat 0 1))
+    (.cons (.not Option.none (.sub ⟨true, true, [122, 122, 122], Option.none, [], false⟩))
+      (.cons (.or Option.none (.cons (.doc false [true, false, false] false 0)
+        (.cons (.sub (mkSub exCtxS false [98, 99, 97] 0 0)) .nil))) .nil)))
+example : exCtxS.WF := ⟨rfl, rfl⟩
+example : exTreeS.OkS exCtxS 0 := by
+  refine ⟨mkSub_ok exCtxS false exPat 0 1 (by decide) (by decide) (by decide), ⟨by decide, ?_⟩,
+    ⟨fun h => by simp at h, mkSub_ok exCtxS false [98, 99, 97] 0 0 (by decide) (by decide) (by decide), trivial⟩, trivial⟩
+  intro d o h
+  unfold occAt at h
+  have hT : Sub.T exCtxS ⟨true, true, [122, 122, 122], Option.none, [], false⟩ = exCtxS.texts true := rfl
+  rw [hT] at h
+  have : (exCtxS.texts true).getD d [] = [110] ∨ (exCtxS.texts true).getD d [] = [111] ∨
+      (exCtxS.texts true).getD d [] = [112] ∨ (exCtxS.texts true).getD d [] = [] := by
+    match d with
+    | 0 => simp [exCtxS, Ctx.texts]
+    | 1 => simp [exCtxS, Ctx.texts]
+    | 2 => simp [exCtxS, Ctx.texts]
+    | _ + 3 => simp [exCtxS, Ctx.texts]
+  have hl := (List.isPrefixOf_iff_prefix.mp h).length_le
+  rw [List.length_drop] at hl
+  rcases this with e | e | e | e <;> rw [e] at hl <;> simp at hl <;> omega
+example : expected exCtxS exTreeS = [0, 2] := by decide
+
+/-- **same-line shortcut, the merge loop** (`andLineMatchTree.matches`): over increasing, non-overlapping line ranges
+    and sorted candidate lists of the other children, the `nextLine` / `nextChild` / `nextCandidate` loop (with its
+    line-skipping `continue nextLine`) answers `matchesFound` iff some line range holds a candidate of every child -/
+theorem sameLine_loop_spec (lines : List (Nat × Nat)) (ch : List (List Nat)) (hl : LinesOK lines)
+    (hs : ∀ c, c ∈ ch → SortedC c) :
+    lineLoop (lines.length + 1) lines ch (ch.length + 1) = true ↔ ∃ l, l ∈ lines ∧ AllIn l.1 l.2 ch :=
+  lineLoop_spec (lines.length + 1) lines ch (by omega) hl hs
+
+/-- **`andLine_same_line`** (the same-line conjunct of `andLineMatchTree`): with the sorted verified candidate offsets of
+    its content-substring children, the shortcut (fewest-candidates child, its line ranges via `atOffset`/`lineStart`,
+    the merge loop) answers `matchesFound` ⇔ some line of the document holds a candidate of every child -/
+theorem andLine_same_line (ctx : Ctx) (doc : Nat) (cands : List (List Nat)) (hne : cands ≠ [])
+    (hs : ∀ c, c ∈ cands → SortedC c)
+    (hb : ∀ c, c ∈ cands → ∀ x, x ∈ c → x < (ctx.text false doc).length) :
+    sameLineOf ctx doc (some cands) = St.found ↔
+      ∃ line, ∀ c, c ∈ cands → ∃ x, x ∈ c ∧ atOffset (newlineOffsets (ctx.text false doc)) x = line :=
+  sameLineOf_spec ctx doc cands hne hs hb
+
+/-! non-vacuity: text "ab\ncd ab\ncd": children {0, 6} ("ab") and {3, 9} ("cd"): line 2 holds 3 and 6 -/
+def exCtxL : Ctx := ⟨[[110]], [[97, 98, 10, 99, 100, 32, 97, 98, 10, 99, 100]], [true]⟩
+example : sameLineOf exCtxL 0 (some [[0, 6], [3, 9]]) = St.found ∧ sameLineOf exCtxL 0 (some [[0], [3, 9]]) = St.none := by
+  decide
+example : atOffset (newlineOffsets (exCtxL.text false 0)) 3 = 2 ∧ atOffset (newlineOffsets (exCtxL.text false 0)) 6 = 2 := by
+  decide
+
+/-! non-vacuity: lines [0,5) [5,9) [9,20); children with candidates {1, 10} and {6, 12}: only the third line holds both -/
+example : LinesOK [(0, 5), (5, 9), (9, 20)] ∧ (∀ c, c ∈ [[1, 10], [6, 12]] → SortedC c) := by
+  refine ⟨⟨by simp, ?_⟩, ?_⟩
+  · intro l hl; simp at hl; rcases hl with h | h | h <;> subst h <;> simp
+  · intro c hc; simp at hc; rcases hc with h | h <;> subst h <;> simp [SortedC]
+example : lineLoop 4 [(0, 5), (5, 9), (9, 20)] [[1, 10], [6, 12]] 3 = true ∧
+    lineLoop 3 [(0, 5), (5, 9)] [[1, 10], [6, 12]] 3 = false := by decide
+
+/-- **`btree_find_spec`** (L12): in a frozen b-tree that satisfies the search-tree invariant `covers` over the sorted
+    ngram section (leaves = consecutive buckets, separator = first ngram of the right sibling's first bucket — evaluated
+    by the driver on the tree of every correspondence case), `find(ng)` ends in the one bucket whose key range holds
+    `ng`, with the right posting-index offset -/
+theorem btree_find_spec (h : Nat) (ngs : List Nat) (ng : Nat) (t : BT) (hi : Nat)
+    (hc : t.covers h ngs 0 = some hi) : FindOK h ngs 0 hi ng (t.find ng) :=
+  BT.find_ok h ngs ng t 0 hi hc
+
+/-- **`btree_get_spec`** (L12): on such a tree over a strictly increasing ngram section, `btreeIndex.Get` (bucket read,
+    binary search, posting-list index) returns the index of a present ngram — for every section length, incl. exact
+    bucket multiples and the oversized last bucket — and nothing for an absent ngram -/
+theorem btree_get_spec (B : Nat) (ngs : List Nat) (t : BT) (last : Nat) (hs : SortedC ngs)
+    (hok : btOK B ngs t last = true) :
+    (∀ idx, idx < ngs.length → btGet B ngs t last (ngs.getD idx 0) = some idx) ∧
+    (∀ ng, ng ∉ ngs → btGet B ngs t last ng = Option.none) :=
+  btGet_spec B ngs t last hs hok
+
+/-! non-vacuity: bucketSize 4, v 2, eleven ngrams: the built tree has inner nodes and satisfies the invariant -/
+def exNgs : List Nat := [2, 3, 5, 7, 11, 13, 17, 19, 23, 29, 31]
+example : btOK 4 exNgs (btBuild 4 2 exNgs).1 (btBuild 4 2 exNgs).2 = true := by decide
+example : (btBuild 4 2 exNgs).1.innerKeys ≠ [] ∧ SortedC exNgs := by
+  refine ⟨by decide, ?_⟩
+  simp [exNgs, SortedC]
+example : btGet 4 exNgs (btBuild 4 2 exNgs).1 (btBuild 4 2 exNgs).2 17 = some 6 ∧
+    btGet 4 exNgs (btBuild 4 2 exNgs).1 (btBuild 4 2 exNgs).2 18 = Option.none := by decide
+
+/-- **`C01_search_exact_all`**: the composition for EVERY modelled match-tree shape — in addition to the fragment of
+    `C01_search_exact_substring`, the nodes a regexp atom produces: `noVisit` pre-filters and same-line `andLine` nodes
+    over substring leaves. `Search` returns exactly, in order, the live documents on which the tree is true, where a
+    substring leaf means "the pattern occurs" (scan), an engine-decided atom means its verdict, an `andLine` node means
+    "every child occurs, and (if all are content leaves) some line holds an occurrence of every child"
+    (`lineSemC`, a scan; cf. `andLine_same_line`), and a `noVisit` node means its child; no `did not decide` panic;
+    a tree pruned to `nil` is false everywhere. -/
+theorem C01_search_exact_all (ctx : Ctx) (hw : ctx.WF) (t0 : MT) (h0 : t0.OkF ctx 0) :
+    match search ctx t0 with
+    | Option.none => ∀ d, semF ctx d t0 = false
+    | some o =>
+      o.res = (List.range ctx.live.length).filter (fun d => ctx.live.getD d false && semF ctx d t0) ∧
+      o.panicked = false := by
+  have hp := MT.prune_F ctx 0 t0 h0
+  unfold search
+  cases hpr : t0.prune with
+  | none => rw [hpr] at hp; exact hp
+  | some t =>
+    rw [hpr] at hp
+    simp only []
+    have := search_loop_exact ctx (fun d => semF ctx d t) _ (loopHyp_full ctx hw t) t ⟨hp.1, fun _ => rfl⟩
+    refine ⟨?_, this.2⟩
+    rw [this.1]
+    congr 1
+    funext d
+    rw [show semF ctx d t = semF ctx d t0 from hp.2.1 d]
+
+/-- **C01 for regexp-derived trees, given sound literal extraction**: if on every live document the tree's engine-side
+    meaning (regexp verdict ∧ pre-filter) equals the scan meaning `MT.ref` (which ignores pre-filters) — i.e. the
+    trigram pre-filter that `regexpToMatchTreeRecursive` extracted is implied by the regexp (validated case by case by
+    the check, not proved: it needs the regexp semantics) — then `Search` returns exactly `expected` (Spec.lean) -/
+theorem C01_search_exact_given_extraction (ctx : Ctx) (hw : ctx.WF) (t0 : MT) (h0 : t0.OkF ctx 0)
+    (hex : ∀ d, d < ctx.live.length → ctx.live.getD d false = true → semF ctx d t0 = t0.ref ctx d) :
+    match search ctx t0 with
+    | Option.none => ∀ d, d < ctx.live.length → ctx.live.getD d false = true → t0.ref ctx d = false
+    | some o => o.res = expected ctx t0 ∧ o.panicked = false := by
+  have h := C01_search_exact_all ctx hw t0 h0
+  cases hs : search ctx t0 with
+  | none => rw [hs] at h; intro d hd hl; rw [← hex d hd hl]; exact h d
+  | some o =>
+    rw [hs] at h
+    refine ⟨?_, h.2⟩
+    rw [h.1]
+    unfold expected
+    apply List.filter_congr
+    intro d hd
+    have hd' : d < ctx.live.length := by simpa using hd
+    cases hl : ctx.live.getD d false with
+    | false => simp [hl]
+    | true => simp only [hl, Bool.true_and]; exact hex d hd' hl
+
+theorem matchAt_bound (cs : Bool) (pat text : List Nat) (x : Nat) (hp : 0 < pat.length)
+    (h : matchAt cs pat text x = true) : x + pat.length ≤ text.length := by
+  unfold matchAt at h
+  cases cs with
+  | true =>
+    simp only [if_true] at h
+    have := (List.isPrefixOf_iff_prefix.mp h).length_le
+    rw [List.length_drop] at this; omega
+  | false =>
+    simp only [Bool.false_eq_true, if_false] at h
+    have := (List.isPrefixOf_iff_prefix.mp h).length_le
+    rw [List.length_map, List.length_drop] at this; omega
+
+/-- the same-line conjunct's scan meaning, spelled out: for content substring children it holds iff some line of the
+    document contains an occurrence of every child's pattern -/
+theorem lineSem_meaning (ctx : Ctx) (d : Nat) (pats : List (Bool × List Nat)) (hne : pats ≠ [])
+    (hpos : ∀ p, p ∈ pats → 0 < p.2.length) :
+    sameLineOf ctx d (some (pats.map fun p => occList ctx p.1 p.2 d)) = St.found ↔
+    ∃ line, ∀ p, p ∈ pats → ∃ o, o ∈ occList ctx p.1 p.2 d ∧ atOffset (newlineOffsets (ctx.text false d)) o = line := by
+  have key := andLine_same_line ctx d (pats.map fun p => occList ctx p.1 p.2 d) (by simpa using hne)
+    (fun c hc => by
+      simp only [List.mem_map] at hc
+      obtain ⟨p, _, e⟩ := hc; subst e
+      exact List.Pairwise.filter _ List.pairwise_lt_range)
+    (fun c hc x hx => by
+      simp only [List.mem_map] at hc
+      obtain ⟨p, hp, e⟩ := hc; subst e
+      simp only [occList, List.mem_filter, List.mem_range] at hx
+      have h1 := matchAt_bound p.1 p.2 (ctx.text false d) x (hpos p hp) hx.2
+      have h2 := hpos p hp
+      omega)
+  rw [key]
+  constructor
+  · intro ⟨line, h⟩
+    exact ⟨line, fun p hp => h _ (List.mem_map.mpr ⟨p, hp, rfl⟩)⟩
+  · intro ⟨line, h⟩
+    refine ⟨line, fun c hc => ?_⟩
+    simp only [List.mem_map] at hc
+    obtain ⟨p, hp, e⟩ := hc; subst e
+    exact h p hp
+
+/-! non-vacuity: the tree of the regexp `abc.*cd` on contents "abc cd", "abc\ncd", "cd abc" (all three satisfy the
+    engine's verdict table here, to show the pre-filter at work): and[re, noVisit(andLine[substr abc, substr cd])] -/
+def exCtxA : Ctx := ⟨[[110], [111], [112]], [[97, 98, 99, 32, 99, 100, 101], [97, 98, 99, 10, 99, 100, 101], [99, 100, 101, 32, 97, 98, 99]],
+  [true, true, true]⟩
+def exTreeA : MT :=
+  .and Option.none (.cons (.re false false [true, false, false] false 0 false false)
+    (.cons (.noVisit (.andLine Option.none Option.none
+      (.cons (.sub (mkSub exCtxA false [97, 98, 99] 0 0)) (.cons (.sub (mkSub exCtxA false [99, 100, 101] 0 0)) .nil)))) .nil))
+example : exCtxA.WF := ⟨rfl, rfl⟩
+example : exTreeA.OkF exCtxA 0 :=
+  ⟨fun h => by simp at h, ⟨⟨mkSub_ok exCtxA false _ 0 0 (by decide) (by decide) (by decide),
+    mkSub_ok exCtxA false _ 0 0 (by decide) (by decide) (by decide), trivial⟩, trivial⟩, trivial⟩
+example : (List.range 3).map (fun d => lineSemC exCtxA (.cons (.sub (mkSub exCtxA false [97, 98, 99] 0 0))
+    (.cons (.sub (mkSub exCtxA false [99, 100, 101] 0 0)) .nil)) d) = [true, false, true] := by decide
+example : (List.range 3).filter (fun d => exCtxA.live.getD d false && semF exCtxA d exTreeA) = [0] := by decide
+
+/-- **`word_fastpath_spec`** (L10, the repaired `wordMatchTree.matches`): on every byte string, the `\bLITERAL\b` fast
+    path reports a match iff the literal occurs somewhere with a non-word byte (or the text boundary) on both sides, and
+    every offset it reports is such an occurrence (in particular an occurrence that fails the test no longer hides an
+    overlapping one that passes) -/
+theorem word_fastpath_spec (data word : List Nat) (hw : word ≠ []) :
+    (wordMatches data word ≠ [] ↔ wordSpec data word = true) ∧
+    (∀ x, x ∈ wordMatches data word → wordAt data word x = true) :=
+  wordMatches_spec data word hw
+
+/-- **`word_fastpath_equiv`**: for the literals `regexpToWordMatchTree` now accepts (first and last byte are word bytes),
+    "between non-word bytes" is exactly RE2's `\bLITERAL\b` at that position (`\b` = exactly one neighbour is a word
+    byte), so the fast path decides the same documents as the regexp would -/
+theorem word_fastpath_equiv (data word : List Nat) (hw : word ≠ [])
+    (hfirst : isWordByte (word.getD 0 0) = true) (hlast : isWordByte (word.getD (word.length - 1) 0) = true) :
+    (wordMatches data word ≠ [] ↔ ∃ p, p ∈ List.range (data.length + 1) ∧ reWordAt data word p = true) := by
+  rw [(wordMatches_spec data word hw).1]
+  simp only [wordSpec, List.any_eq_true]
+  constructor
+  · intro ⟨p, hp, h⟩; exact ⟨p, hp, by rw [word_boundary_equiv data word p hw hfirst hlast]; exact h⟩
+  · intro ⟨p, hp, h⟩; exact ⟨p, hp, by rw [← word_boundary_equiv data word p hw hfirst hlast]; exact h⟩
+
+/-! non-vacuity: "xfoo-foo-foo" and the word "foo-foo": the occurrence at 1 fails the boundary test, the overlapping one
+    at 5 passes; "a-foo b" and the word "-foo" (not eligible: `\b-foo\b` matches at 1, the byte test does not) -/
+example : wordMatches [120, 102, 111, 111, 45, 102, 111, 111, 45, 102, 111, 111] [102, 111, 111, 45, 102, 111, 111] = [5] := by
+  decide
+example : reWordAt [97, 45, 102, 111, 111, 32, 98] [45, 102, 111, 111] 1 = true ∧
+    wordAt [97, 45, 102, 111, 111, 32, 98] [45, 102, 111, 111] 1 = false := by decide
+
+/-- **`selection_consistent_thm`** (L5): for every pattern of at least three runes and ARBITRARY frequencies (one per
+    trigram, in sorted-trigram order as `iterateNgrams` computes them), `findSelectiveNgrams` (two lowest frequencies,
+    then the overlap-reducing shift through `indexMap`) returns two trigram positions `first ≤ last` of the pattern —
+    exactly the hypotheses `i ≤ j`, `j + 3 ≤ |pattern|` of `docIter_candidates_complete` / `substr_cs_leaf_ok`, so the
+    frequency heuristic provably cannot affect results -/
+theorem selection_consistent_thm (pat freqs : List Nat) (hlen : 3 ≤ pat.length) (hf : freqs.length = pat.length - 2) :
+    (findSelective (sortedPositions pat) (mkIndexMap (sortedPositions pat)) freqs).1 ≤
+      (findSelective (sortedPositions pat) (mkIndexMap (sortedPositions pat)) freqs).2 ∧
+    (findSelective (sortedPositions pat) (mkIndexMap (sortedPositions pat)) freqs).2 + 3 ≤ pat.length :=
+  selection_consistent pat freqs hlen hf
+
+/-! non-vacuity: pattern "abcabd": sorted trigrams abc(0) abd(3) bca(1) cab(2); frequencies 9,9,1,2 select bca and cab,
+    which overlap, so the shift moves them apart to positions 0 and 3 -/
+example : sortedPositions [97, 98, 99, 97, 98, 100] = [0, 3, 1, 2] := by decide
+example : findSelective (sortedPositions [97, 98, 99, 97, 98, 100]) (mkIndexMap (sortedPositions [97, 98, 99, 97, 98, 100]))
+    [9, 9, 1, 2] = (0, 3) := by decide
+
+/-- **`variants_cover`**: `generateCaseNgrams` (the odometer over the `SimpleFold` orbits of the trigram's runes, `fold` a
+    parameter with finite cycles through the three runes) terminates after one period and returns every triple of the
+    product of the three orbits -/
+theorem variants_cover (fold : Nat → Nat) (a b c k0 k1 k2 : Nat) (ha : Cyc fold a k0) (hb : Cyc fold b k1)
+    (hc : Cyc fold c k2) (fuel : Nat) (hf : k0 * (k1 * (k2 * 1)) ≤ fuel) (tuple : List Nat)
+    (ht : InOrbits fold [a, b, c] tuple) : tuple ∈ generateCase fold [a, b, c] fuel :=
+  generateCase_cover fold [a, b, c] _ (odo_three fold a b c k0 k1 k2 ha hb hc) fuel hf tuple ht
+
+/-- **case-insensitive leaves over the GENERATED variants**: if `fold` has finite cycles through the runes of the two
+    selected trigrams of the pattern and FoldAgree holds for them (whatever lower-cases like such a rune lies in its
+    fold orbit — the property's restriction; the rest is C08), then the leaf built over the posting lists of
+    `generateCaseNgrams`' variants satisfies the leaf invariant, so the composition theorems apply to it -/
+theorem substr_ci_leaf_ok_generated (ctx : Ctx) (fileName : Bool) (pat : List Nat) (i j : Nat) (fold : Nat → Nat)
+    (N1 N2 fuel : Nat) (hij : i ≤ j) (hj : j + 3 ≤ pat.length)
+    (hsz : totalLen (ctx.texts fileName) + pat.length < maxU32)
+    (ho1 : Odo fold (tri pat i) N1) (ho2 : Odo fold (tri pat j) N2) (hf1 : N1 ≤ fuel) (hf2 : N2 ≤ fuel)
+    (ha1 : FoldAgreeL fold (tri pat i)) (ha2 : FoldAgreeL fold (tri pat j)) :
+    SubOk ctx 0 (mkSubCI ctx fileName (pat.map toLowerRune) i j
+      (generateCase fold (tri pat i) fuel) (generateCase fold (tri pat j) fuel)) := by
+  have htri : ∀ k, tri (pat.map toLowerRune) k = (tri pat k).map toLowerRune := by
+    intro k; simp [tri, List.map_drop, List.map_take]
+  refine mkSubCI_ok ctx fileName (pat.map toLowerRune) i j _ _ hij (by simpa using hj) (by simpa using hsz) ?_ ?_
+  · intro g' h
+    rw [htri] at h
+    exact variants_cover_lower fold (tri pat i) N1 fuel ho1 hf1 ha1 g' h
+  · intro g' h
+    rw [htri] at h
+    exact variants_cover_lower fold (tri pat j) N2 fuel ho2 hf2 ha2 g' h
+
+/-! non-vacuity: ASCII case folding (a ↔ A); the trigram "ab-" has 2·2·1 = 4 variants, all generated -/
+def exFold (c : Nat) : Nat := if 97 ≤ c ∧ c ≤ 122 then c - 32 else if 65 ≤ c ∧ c ≤ 90 then c + 32 else c
+example : Cyc exFold 97 2 ∧ Cyc exFold 98 2 ∧ Cyc exFold 45 1 := by
+  refine ⟨⟨by omega, by decide, ?_⟩, ⟨by omega, by decide, ?_⟩, ⟨by omega, by decide, ?_⟩⟩
+  · intro j h1 h2; have : j = 1 := by omega
+    subst this; decide
+  · intro j h1 h2; have : j = 1 := by omega
+    subst this; decide
+  · intro j h1 h2; omega
+example : generateCase exFold [97, 98, 45] 300 = [[65, 98, 45], [97, 66, 45], [65, 66, 45], [97, 98, 45]] := by decide
+
+/-- **`extract_superset`** (L9): for every regexp syntax tree (all `regexp/syntax` operators; `ci` = matched
+    case-insensitively) and every match `s[i, j)` under the denotational semantics `Rx.M`, the literal tree that
+    `regexpToMatchTreeRecursive` extracts is satisfied INSIDE the match (every required literal occurs there; a
+    same-line node inside a newline-free part), and `singleLine` extractions only come from matches without a newline -/
+theorem extract_superset (ci : Bool) (s : List Nat) (r : Rx) (i j : Nat) (h : r.M ci s i j) :
+    (i ≤ j ∧ j ≤ s.length) ∧ (r.extract (!ci)).tree.inSpan s i j ∧
+    ((r.extract (!ci)).singleLine = true → NoNL s i j) :=
+  Rx.ext_ok ci s r i j h
+
+/-- **`extract_superset_doc`**: if the regexp matches somewhere in the content of document `d`, the extracted literal
+    tree is true on `d` in the engine's sense (substring leaves by occurrence, `andLine` nodes incl. their same-line
+    condition) -/
+theorem extract_superset_on_doc (ctx : Ctx) (d : Nat) (ci : Bool) (r : Rx)
+    (h : r.matchesText ci (ctx.text false d)) : (r.extract (!ci)).tree.semB ctx d = true :=
+  extract_superset_doc ctx d ci r h
+
+/-- **`prefilter_sound_thm`**: hence the match tree carrying that literal tree (iterators attached) is true on every
+    document the regexp matches: the trigram pre-filter never removes a matching document -/
+theorem prefilter_sound_thm (ctx : Ctx) (L d : Nat) (ci : Bool) (r : Rx) (P : MT)
+    (hc : Corr (r.extract (!ci)).tree P) (hok : P.OkF ctx L) (hm : r.matchesText ci (ctx.text false d)) :
+    semF ctx d P = true :=
+  prefilter_sound ctx L d ci r P hc hok hm
+
+/-- **`C01_search_exact_regexp`**: for the tree `newMatchTree` builds for a (content) regexp atom —
+    `and[regexp leaf, noVisit(extracted pre-filter)]` — with the only assumption about the regexp ENGINE that a
+    verdict "matches" is a match in the semantics `Rx.M`: `Search` returns exactly the live documents on which the
+    engine's verdict is true (`expected` of Spec.lean), i.e. the pre-filter, the iterators, staged evaluation, nextDoc,
+    pruning and the document loop together lose nothing and add nothing. -/
+theorem C01_search_exact_regexp (ctx : Ctx) (hw : ctx.WF) (ci : Bool) (r : Rx) (P : MT) (k : Option Bool)
+    (w : Bool) (bits : List Bool) (fd : Bool) (id : Nat) (ev fo : Bool)
+    (h0 : (MT.and k (.cons (.re w false bits fd id ev fo) (.cons (.noVisit P) .nil))).OkF ctx 0)
+    (hc : Corr (r.extract (!ci)).tree P)
+    (heng : ∀ d, d < ctx.live.length → bits.getD d false = true → r.matchesText ci (ctx.text false d)) :
+    match search ctx (MT.and k (.cons (.re w false bits fd id ev fo) (.cons (.noVisit P) .nil))) with
+    | Option.none => ∀ d, d < ctx.live.length → ctx.live.getD d false = true →
+        (MT.and k (.cons (.re w false bits fd id ev fo) (.cons (.noVisit P) .nil))).ref ctx d = false
+    | some o => o.res = expected ctx (MT.and k (.cons (.re w false bits fd id ev fo) (.cons (.noVisit P) .nil))) ∧
+        o.panicked = false := by
+  apply C01_search_exact_given_extraction ctx hw _ h0
+  intro d hd _
+  simp only [semF, MT.sem, MTs.semAll, MT.ref, MTs.refAll, Bool.and_true]
+  cases hb : bits.getD d false with
+  | false => rfl
+  | true =>
+    have hP : P.OkF ctx 0 := h0.2.1
+    have := prefilter_sound ctx 0 d ci r P hc hP (heng d hd hb)
+    simp only [semF] at this
+    simp [this]
+
+/-- **`extract_isEqual`** (L9): when `regexpToMatchTreeRecursive` reports `isEqual` (literals of ≥ 3 runes under
+    capture / plus / `{1,n}` / alternation), the extracted tree is true on a document exactly when the regexp matches its
+    content — so `newMatchTree` may return the tree in place of the regexp -/
+theorem extract_isEqual (ctx : Ctx) (d : Nat) (ci : Bool) (r : Rx) (hw : r.WFr)
+    (he : (r.extract (!ci)).isEq = true) :
+    (r.extract (!ci)).tree.semB ctx d = true ↔ r.matchesText ci (ctx.text false d) :=
+  extract_isEqual_doc ctx d ci r hw he
+
+/-! non-vacuity: `(abc)+|cde` is `isEqual`: its extraction is or[abc, cde] -/
+def exRxEq : Rx := .alt (.cons (.plus (.cap (.lit [97, 98, 99] false))) (.cons (.lit [99, 100, 101] false) .nil))
+example : (exRxEq.extract true).isEq = true ∧ exRxEq.WFr ∧
+    (exRxEq.extract true).tree = .or [.sub [97, 98, 99] true, .sub [99, 100, 101] true] := by
+  simp [exRxEq, Rx.extract, Rxs.extractAll, Lit.isBrute, Rx.WFr, Rxs.WFrAll]
+
+/-! non-vacuity: the regexp `abc.*cde` as a syntax tree; its extraction is the same-line node over "abc" and "cde";
+    it matches "abc cde" (document 0 of `exCtxA`), and `exTreeA`'s pre-filter corresponds to the extracted tree -/
+def exRx : Rx := .cat (.cons (.lit [97, 98, 99] false) (.cons (.star .anyNotNL) (.cons (.lit [99, 100, 101] false) .nil)))
+example : (exRx.extract true).tree = .andLine [.sub [97, 98, 99] true, .sub [99, 100, 101] true] ∧
+    (exRx.extract true).isEq = false ∧ (exRx.extract true).singleLine = true := by
+  simp [exRx, Rx.extract, Rxs.extractAll, Lit.isBrute]
+example : exRx.matchesText false (exCtxA.text false 0) := by
+  refine ⟨0, 7, 3, ?_, 4, ?_, 7, ?_, rfl, by decide⟩
+  · refine ⟨rfl, by decide, fun k hk => ?_⟩
+    have : k = 0 ∨ k = 1 ∨ k = 2 := by simp at hk; omega
+    rcases this with e | e | e <;> subst e <;> decide
+  · exact ⟨by decide, StarM.step 3 4 4 ⟨rfl, by decide, by decide⟩ (StarM.refl 4)⟩
+  · refine ⟨rfl, by decide, fun k hk => ?_⟩
+    have : k = 0 ∨ k = 1 ∨ k = 2 := by simp at hk; omega
+    rcases this with e | e | e <;> subst e <;> decide
+example : Corr (exRx.extract true).tree (.andLine Option.none Option.none
+    (.cons (.sub (mkSub exCtxA false [97, 98, 99] 0 0)) (.cons (.sub (mkSub exCtxA false [99, 100, 101] 0 0)) .nil))) := by
+  simp [exRx, Rx.extract, Rxs.extractAll, Lit.isBrute, Corr, CorrAll, mkSub, leafPat]
 
 /-! non-vacuity: a shard of 5 documents (document 3 dead), tree `and[doc-predicate, not(regexp verdicts), or[branch, none]]` -/
 def exCtx : Ctx := ⟨[[97], [98], [99], [100], [101]], [[], [], [], [], []], [true, true, true, false, true]⟩
